@@ -34,6 +34,36 @@ def readUntilLF : List REvent → List UInt8 → (Option (List UInt8)) × List R
   | .error :: rest, _ => (none, rest)
   | .eof :: rest, acc => (some acc, rest)
 
+/-- The same function with the line accumulated in reverse (linear instead of quadratic in the line
+    length); `readUntilLF_eq_impl` makes the compiler use it, the proofs keep the definition above. -/
+def readUntilLFGo : List REvent → List UInt8 → (Option (List UInt8)) × List REvent
+  | [], r => (some r.reverse, [])
+  | .byte b :: rest, r => if b = 10 then (some (b :: r).reverse, rest) else readUntilLFGo rest (b :: r)
+  | .interrupted :: rest, r => readUntilLFGo rest r
+  | .error :: rest, _ => (none, rest)
+  | .eof :: rest, r => (some r.reverse, rest)
+
+theorem readUntilLFGo_eq (evs : List REvent) (r : List UInt8) :
+    readUntilLFGo evs r = readUntilLF evs r.reverse := by
+  induction evs generalizing r with
+  | nil => simp [readUntilLFGo, readUntilLF]
+  | cons e rest ih =>
+    cases e with
+    | byte b =>
+      by_cases hb : b = 10
+      · simp [readUntilLFGo, readUntilLF, hb]
+      · simp [readUntilLFGo, readUntilLF, hb, ih]
+    | interrupted => simp [readUntilLFGo, readUntilLF, ih]
+    | error => simp [readUntilLFGo, readUntilLF]
+    | eof => simp [readUntilLFGo, readUntilLF]
+
+def readUntilLFImpl (evs : List REvent) (acc : List UInt8) : (Option (List UInt8)) × List REvent :=
+  readUntilLFGo evs acc.reverse
+
+@[csimp] theorem readUntilLF_eq_impl : @readUntilLF = @readUntilLFImpl := by
+  funext evs acc
+  simp [readUntilLFImpl, readUntilLFGo_eq]
+
 /-- `Frame::read`. -/
 def frameRead (evs : List REvent) : IoResult Frame × List REvent :=
   match readUntilLF evs [] with
